@@ -1,7 +1,7 @@
 """C12 - Range proofs never establish a false inequality (RangeStmt.tla, parts a and b)."""
 import json, os
 from concurrent.futures import ThreadPoolExecutor
-import vplib
+import vplib, zkstage
 
 # as-is switches of RangeStmt.tla: each configuration must violate the named invariant (shows that the
 # invariants are not vacuous and that the model sees the defect the switch stands for)
@@ -47,7 +47,11 @@ def run(chk):
                 "(64-bit values substituted for toy word values) and judged by integer semantics for every m of the box; every attachment case is "
                 "materialised on real credentials (1024-bit) and real ProofDs and must get the specification's verdict from ProofD.Verify and "
                 "ProofList.Verify (in memory and after JSON); after acceptance ProvenStatement/ProvesStatement are checked against the signed value. "
-                "Non-trivial = descriptor passing ExtractOK / manipulated proof.")
+                "Plus ZkProof.tla (Qr variant): the representation-proof engine the range proofs are built on, in a concrete toy group (n = 77) in which TLC does the "
+                "arithmetic itself - four statement shapes incl. those of the range proof (C_i = R^d S^v, the m-correctness equation) with prover-supplied bases ranging over "
+                "ALL residues incl. 0 and non-units; invariants Complete, Absorbing (a supplied base 0 makes the reconstructed commitment 0 whatever the responses: D27); "
+                "every case (13,824) is evaluated by the real zkproof engine and commitment / reconstructed commitments are compared exactly. "
+                "Non-trivial = descriptor passing ExtractOK / manipulated proof / engine case.")
     chk.assumptions = ["the Fiat-Shamir hash and the representation proofs are idealised in the model (a reconstructed commitment equals the hashed one iff "
                        "challenge, base, responses and descriptor are the ones it was built with); the harness uses the real ones",
                        "machine words are modelled at W = 9 bits; scale separation (quarter word > every bound of the box) is asserted in the module",
@@ -87,6 +91,8 @@ def run(chk):
     if res.get("counts", {}).get("expect:accept", 0) < 100 or res.get("counts", {}).get("expect:reject", 0) < 1000:
         raise vplib.Machinery("attachment replay is vacuous: %s" % res.get("counts"))
     chk.add_replay(res, "attachment")
+    # the representation-proof engine underneath, in a concrete toy group (ZkProof.tla)
+    zkstage.run(chk, "qr")
     chk.exhaustive = True
 
 
